@@ -61,6 +61,17 @@ type c01Scn struct {
 	// as in FunctionComposer.Compose (cd.SetNamespace(observed); cd.SetName(observed)). The model is
 	// not told the namespaces; it is told the qualified candidates the generator drew.
 	NS []map[string]string `json:"ns,omitempty"`
+	// Conn (function mode, monitor-only family "direct"): desired resource names whose composed
+	// resource carries spec.writeConnectionSecretToRef {name: "conn-"+rname, namespace: "secrets"}:
+	// ObserveComposedResources then issues one more read per such existing resource (the Get of the
+	// connection secret inside FetchConnection), on which a fault can land. ConnHave: the names
+	// whose secret exists (the others answer NotFound, which FetchConnection tolerates).
+	Conn     []string `json:"conn,omitempty"`
+	ConnHave []string `json:"connHave,omitempty"`
+	// Direct: monitor-only scenario - the model has no step for the secret Get, so nothing is
+	// compared (Drv/C01.lean answers {}); the property's clauses are evaluated on the real store
+	// after every call (C01:leak, C01:duplicate, C01:name-changed) and at the end (C01:not-quiescent).
+	Direct bool `json:"direct,omitempty"`
 }
 
 func c01Qual(ns, name string) string {
@@ -217,6 +228,8 @@ type c01Namer struct {
 	staleXR *unstructured.Unstructured
 	// metadata.namespace the function emits per desired resource name in the current round
 	ns map[string]string
+	// desired resource names emitted with a connection secret reference
+	conn map[string]bool
 }
 
 func (n *c01Namer) startRound(plan []int) {
@@ -301,6 +314,9 @@ func c01NewReconciler(w *xwWorld, mode string, nm *c01Namer) *composite.Reconcil
 			m := map[string]any{"apiVersion": xwAPIVersion(d.Kind, rd.Ver), "kind": xwKindGVK(d.Kind).Kind, "spec": map[string]any{"content": d.Content}}
 			if n := nm.ns[d.RName]; n != "" {
 				m["metadata"] = map[string]any{"namespace": n}
+			}
+			if nm.conn[d.RName] {
+				m["spec"] = map[string]any{"content": d.Content, "writeConnectionSecretToRef": map[string]any{"name": "conn-" + d.RName, "namespace": "secrets"}}
 			}
 			s, _ := structpb.NewStruct(m)
 			rdy := fnv1.Ready_READY_FALSE
